@@ -49,7 +49,10 @@ def build(kind, route, name, nexports, e1, edit, old):
     pkg.set_member("keep", Function("keep", parameters=Parameters(), lineno=9, endlineno=9))
     holder = Class("Holder", lineno=10, endlineno=20)
     pkg.set_member("Holder", holder)
-    sub = Class("Sub", bases=["pkg.Holder"], lineno=21, endlineno=22)
+    # route "inherited": the member lives in a PRIVATE base class, so its only public path is the inherited one (pkg.Sub.<name>)
+    hidden = Class("_Hidden", lineno=23, endlineno=30)
+    pkg.set_member("_Hidden", hidden)
+    sub = Class("Sub", bases=["pkg._Hidden" if route == "inherited" else "pkg.Holder"], lineno=21, endlineno=22)
     pkg.set_member("Sub", sub)
     if nexports >= 0:
         pkg.exports = [e1, "keep", "Holder", "Sub"][: nexports + 3] if nexports else ["keep", "Holder", "Sub"]
@@ -78,7 +81,10 @@ def build(kind, route, name, nexports, e1, edit, old):
         pkg.set_member("util", util)
         if target is not None:
             util.set_member(name, target)
-    else:  # member / inherited: the object is a member of the public class Holder (and inherited by Sub)
+    elif route == "inherited":
+        if target is not None:
+            hidden.set_member(name, target)
+    else:  # member: the object is a member of the public class Holder (and inherited by Sub)
         if target is not None:
             holder.set_member(name, target)
     if not old and edit == "add_public":
@@ -124,7 +130,7 @@ def _cases():
     pre=lambda kind, route, edit, name, nexports, e1: 1 <= len(name) <= tiered(3, 5) and all(c in "_a" for c in name) and name not in ("keep",) and -1 <= nexports <= 1
     and 1 <= len(e1) <= tiered(3, 5) and all(c in "_a" for c in e1) and (nexports == 1 or e1 == "a"),
     drives=[find_breaking_changes, D._member_incompatibilities, D._type_based_yield, D._alias_incompatibilities, D._class_incompatibilities, D._attribute_incompatibilities, D._function_incompatibilities],
-    bounds={"package": "pkg{_impl, keep(), Holder, Sub(Holder)} + one edited object", "object kind": KINDS, "exposure route": ROUTES, "edit": EDITS_BREAKING + EDITS_COMPATIBLE,
+    bounds={"package": "pkg{_impl, keep(), Holder, _Hidden, Sub(Holder | _Hidden)} + one edited object (route inherited: member of the private base _Hidden, public only as pkg.Sub.<name>)", "object kind": KINDS, "exposure route": ROUTES, "edit": EDITS_BREAKING + EDITS_COMPATIBLE,
             "name": f"1..{tiered(3, 5)} chars over '_a' (a, _a, __a, __, a_, ...)", "__all__": "absent, ['keep','Holder','Sub'], or [e1,'keep','Holder','Sub'] with e1 symbolic"},
     value_symbolic=["name of the edited object", "__all__ presence and its first entry"], selectors=["object kind, exposure route, edit (driver-bound)"], stubs=STUBS,
     must_cover=["reported-public", "silent-private", "silent-compatible", "reported-via-inheritance"],
@@ -148,7 +154,7 @@ def verdict(kind: str, route: str, edit: str, name: str, nexports: int, e1: str)
         cover("silent-compatible")
         return not breaks or fail(f"compatible edit {edit} reported {[b.kind.name for b in breaks]}")
     public = ref_public(route, name, exports, kind)
-    paths = {"direct": [f"pkg.{name}"], "reexport": [f"pkg.{name}"], "member": [f"pkg.Holder.{name}", f"pkg.Sub.{name}"], "inherited": [f"pkg.Sub.{name}", f"pkg.Holder.{name}"], "submodule": [f"pkg.util.{name}"]}[route]
+    paths = {"direct": [f"pkg.{name}"], "reexport": [f"pkg.{name}"], "member": [f"pkg.Holder.{name}", f"pkg.Sub.{name}"], "inherited": [f"pkg.Sub.{name}"], "submodule": [f"pkg.util.{name}"]}[route]
     got = [b.obj.path for b in breaks]
     mine = [p for p in got if p in paths or any(p.startswith(q + "(") or p.startswith(q + ".") for q in paths)]
     if public:
